@@ -8,6 +8,7 @@ package worlds
 import (
 	"encoding/json"
 	"fmt"
+	"os"
 	"sort"
 	"sync/atomic"
 	"testing"
@@ -254,6 +255,14 @@ func contains(s, sub string) bool {
 
 // pickScenario maps run index i to a scenario by weight.
 func pickScenario(list []*Scenario, i int) *Scenario {
+	// debugging aid: VERIF_SCENARIO=<name> runs that scenario only
+	if only := os.Getenv("VERIF_SCENARIO"); only != "" {
+		for _, s := range list {
+			if s.Name == only {
+				return s
+			}
+		}
+	}
 	total := 0
 	for _, s := range list {
 		total += s.Weight
